@@ -33,7 +33,7 @@ WT_TRUST = [
 # The end-to-end rig (`sv-e2e` / monitor `e2e`): real agent + real runtime + remotes; monitor only.
 E2E_REASONS = {
     "C01": r"value-event-stale-or-reordered|value-stale-at-quiescence|value-event-on-map-lane",
-    "C02": r"map-replica-diverged|map-event-on-other-lane",
+    "C02": r"map-replica-diverged|map-event-on-other-lane|map-take-drop-wrong-keys",
     "C03": r"map-snapshot-inconsistent|value-snapshot-inconsistent|value-synced-without-value|"
            r"sync-request-never-answered|synced-not-requested|map-update-lost-during-implicit-link-sync|"
            r"event-outside-link|synced-outside-link|linked-remote-never-told-linked",
